@@ -156,3 +156,14 @@ def r_discrete_uniform(lo, hi) -> bool:
         if any(k < a or k > b for k in counts):
             return rt.fail("C15:DistDiscreteUniform:draw-outside-support", f"[{a},{b}]: {sorted(counts)}")
     return True
+
+
+def r_family(ca, pa, cb, pb, x) -> bool:
+    """replay: two classes that describe the same distribution must report the same density"""
+    from pydsol.core.streams import MersenneTwister
+    st = MersenneTwister(1)
+    a = getattr(D, ca)(st, *pa).probability_density(x)
+    b = getattr(D, cb)(st, *pb).probability_density(x)
+    if abs(a - b) > 1e-9 * max(1.0, abs(a), abs(b)):
+        return rt.fail(f"C15:{ca}:density-differs-from-{cb}-for-the-same-distribution", f"{ca}{tuple(pa)}.pdf({x}) = {a!r}, {cb}{tuple(pb)}.pdf({x}) = {b!r}")
+    return True
